@@ -65,6 +65,33 @@ def foot(piece, P):
     return d, t, min(t, L - t)
 
 
+def joints(segs):
+    """interior joints of the surface whose tangent direction jumps: (u, v, end dip of the piece before, start dip of the piece after, along-surface position, index of the piece before)"""
+    pcs = pieces(segs)
+    out = []
+    for k in range(len(pcs) - 1):
+        (u1, v1, a0n, a1n, Ln, s1) = pcs[k + 1]
+        a1 = pcs[k][3]
+        if abs(a1 - a0n) > math.radians(1.0):
+            out.append((u1, v1, a1, a0n, s1, k))
+    return out
+
+
+def nearest_kink(segs, P):
+    """the interior kink closest to P: (distance, below both pieces?, above both pieces?, joint) or None"""
+    best = None
+    for (u1, v1, a1, a0n, s1, k) in joints(segs):
+        du, dv = P[0] - u1, P[1] - v1
+        r = math.hypot(du, dv)
+        # in the wedge of the kink: beyond the end of the piece before, before the start of the piece after
+        if not (du * math.cos(a1) + dv * math.sin(a1) > 0 and du * math.cos(a0n) + dv * math.sin(a0n) < 0):
+            continue
+        d1 = du * (-math.sin(a1)) + dv * math.cos(a1); d2 = du * (-math.sin(a0n)) + dv * math.cos(a0n)
+        if best is None or r < best[0]:
+            best = (r, d1 > 0 and d2 > 0, d1 < 0 and d2 < 0, (u1, v1, a1, a0n, s1, k))
+    return best
+
+
 def planar(segs, P):
     best = None
     second = None
@@ -164,6 +191,16 @@ def oracle(seed, tier):
                 u, v = fu - dd * math.sin(tha), fv + dd * math.cos(tha)
                 if v < 0:
                     u = rng.uniform(-150e3, 500e3); v = rng.uniform(0, 450e3)
+            if pi < npts and pi % 9 == 4 and joints(geo):
+                # inside the wedge of a kink (the dip jumps between two segments): no piece has a perpendicular foot there, the kink itself is the closest point of the surface
+                (u1, v1, a1, a0n, s1, kk) = rng.choice(joints(geo))
+                thj = min(segs[kk][4], segs[kk + 1][3])
+                sgn = 1.0 if a1 > a0n else -1.0          # dip decreasing: the wedge opens below the surface
+                bis = ((a1 + a0n) / 2)
+                r = rng.uniform(0.15, 0.45) * (thj / 2 if fault else thj)
+                u, v = u1 + sgn * r * (-math.sin(bis)), v1 + sgn * r * math.cos(bis)
+                if v < 0:
+                    u = rng.uniform(-150e3, 500e3); v = rng.uniform(0, 450e3)
             if pi >= npts:
                 # deterministic probes just before the interior coordinate, a little below the start of the surface
                 al = m * (1 - [0.01, 0.02, 0.03, 0.04, 0.05, 0.06][pi - npts])
@@ -181,6 +218,7 @@ def oracle(seed, tier):
         if rc != 0 or len(out) != len(lines) or out[0] != "ok":
             viol.append({"what": "library failed: rc=%s %s %s" % (rc, out[:1], err[-200:]), "world_json": w}); continue
         tol = 1e-6 * ln
+        kinked_reported = False
         for k, (u, v, d, al) in enumerate(pts):
             # three collinear coordinates: the library's trench curve overshoots the interior coordinate (recorded known finding); a mismatch whose foot lies near it
             # is attributed to that finding
@@ -192,6 +230,22 @@ def oracle(seed, tier):
             if a[0] != "ok" or tg[0] != "ok":
                 viol.append({"what": "query failed: %s %s" % (a, tg), "world_json": w, "cmd": lines[1 + 2 * k]}); break
             dl, al_ = a[1][0], a[1][1]
+            kink = nearest_kink(geo, (u, v)) if m is None else None
+            if kink is not None and (best is None or kink[0] < best[0] - (1e-6 * Ltot + 1.0)) and not kinked_reported:
+                # the closest point of the surface is the kink itself (distance kink[0]); membership by the statement's ranges, with a 2 km margin on every bound
+                (u1, v1, a1, a0n, s1, kk) = kink[3]
+                thj = min(segs[kk][4], segs[kk + 1][3]); ttj = max(segs[kk][6], segs[kk + 1][5])
+                if fault:
+                    inside_k = kink[0] < thj / 2 - 2e3
+                else:
+                    inside_k = kink[1] and ttj + 2e3 < kink[0] < thj - 2e3
+                if inside_k and d < maxd - 2e3 and tg[1][0] == -1.0:
+                    kinked_reported = True
+                    nontriv += 1
+                    viol.append({"what": "%s: a point %.6g m from the kink between segments %d and %d (dips %.4g -> %.4g degrees; u=%.6g, v=%.6g in the perpendicular plane) lies within thickness %.6g of the surface but is "
+                                         "not a member; distance_to_plane reports (%.9g, %.9g)" % ("fault" if fault else "slab", kink[0], kk, kk + 1, math.degrees(a1), math.degrees(a0n), u, v, thj, dl, al_),
+                                 "world_json": w, "world": path, "cmd": lines[1 + 2 * k], "segments": w["features"][0]["segments"], "probe": "kink-wedge"})
+                continue
             if best is None:
                 continue        # no foot: the library reports infinity or a value from an end cap; not part of the statement
             if best[3] < 1e-6 * Ltot + 1.0 or (second is not None and abs(second[0] - best[0]) < 1e-6 * Ltot + 1.0):
